@@ -119,6 +119,15 @@ impl<R> Decoder<R> {
 
     /// Verification hook: access to the wrapped reader.
     pub fn verif_inner(&mut self) -> &mut R {
-        &mut self.inner
+        self.inner.get_mut().1
+    }
+
+    /// Verification hook: sniffed non-BOM bytes that have not been read yet.
+    pub fn verif_sniffed(&self) -> &[u8] {
+        let cursor = &self.inner.get_ref().0;
+        let all = cursor.get_ref().as_ref();
+        let pos = (cursor.position() as usize).min(all.len());
+
+        &all[pos..]
     }
 }
